@@ -79,6 +79,12 @@ def run(F, res, tier):
         names = rv["fields"]
         do = d2.origin_op(rv["ops"][names.index("delete")])
         ok_del = do.get("k") == "arg" and do["n"] >= 2 and f.kind == "Closure"
+        if not ok_del:
+            # `for range in ranges` instead of a for_each closure: the value is an item of an iteration over the usage search
+            # result, and nothing constructs or shifts a range on the way
+            dep = FL.depends(F, f, d2, rv["ops"][names.index("delete")])
+            ok_del = any(c.endswith("FindUsages::all") for c in dep["calls"]) and any(c.endswith("Iterator::next") for c in dep["calls"]) and \
+                not any(c.startswith("TextRange::") or c.startswith("TextSize::") or "Add" in c or "Sub" in c for c in dep["calls"])
         # the closure must be the one handed to for_each over the ranges of the usage search result
         io = d2.origin_op(rv["ops"][names.index("insert")])
         ok_ins = False
@@ -98,7 +104,7 @@ def run(F, res, tier):
                 why = "captured from %s %s" % (pf.path if pf else None, pf.debug_name(base["n"]) if pf and base.get("k") == "arg" else base.get("k"))
             elif ao.get("k") == "arg" and f.debug_name(ao["n"]) == "new_name":
                 ok_ins = True
-        res.ob("N2", "edit/delete-is-found-range", "TextEdit.delete is the range the usage search delivered (closure parameter), unmodified",
+        res.ob("N2", "edit/delete-is-found-range", "TextEdit.delete is the range the usage search delivered (closure parameter or loop item), unmodified",
                ok_del, where=f.loc(s["ln"]), how="origin %s" % do.get("k"))
         res.ob("N2", "edit/insert-is-new-name", "TextEdit.insert is SmolStr::new(new_name) of rename's own parameter",
                ok_ins, where=f.loc(s["ln"]), how=why or "origin %s" % io.get("k"))
